@@ -59,6 +59,7 @@ func runC20(c *Ctx, r *Report) {
 	c20HandlerClose(c, r)
 	c20TeeSplit(c, r)
 	c20WriterState(c, r, fn)
+	c20LRULinks(c, r)
 }
 
 // ---- R20.1 -------------------------------------------------------------------
@@ -889,3 +890,133 @@ func c20WriterState(c *Ctx, r *Report, fn *ssa.Function) {
 }
 
 var _ = sort.Strings
+
+// c20LRULinks (R20.9): the handle cache's recency list is doubly linked with a
+// head and a tail pointer. Any function that rewrites a node's links can move
+// a node to or from either end, so it must maintain both end pointers. The
+// node type and the end pointers are found by shape: a struct of pkg/output
+// with two fields that point to its own type, and the fields of that pointer
+// type in the struct that owns the list.
+func c20LRULinks(c *Ctx, r *Report) {
+	r.Rule("R20.9", "the recency list keeps both ends: every function that stores a link of a cache node (a field of the node struct that points to another node) also stores both end pointers held by the manager (its fields of that node-pointer type) on some path — a move-to-front that forgets the tail leaves the tail pointer on a node that is no longer last, and the next eviction closes a handler that is in use")
+	p := c.Pkg("pkg/output")
+	if p == nil {
+		r.Undecided("R20.9", "pkg/output", "", "package not loaded")
+		return
+	}
+	// node type: named struct with exactly two fields of type *itself
+	var node *types.Named
+	linkFields := map[string]bool{}
+	scope := p.Types.Scope()
+	for _, nm := range scope.Names() {
+		tn, ok := scope.Lookup(nm).(*types.TypeName)
+		if !ok {
+			continue
+		}
+		named, ok := tn.Type().(*types.Named)
+		if !ok {
+			continue
+		}
+		st, ok := named.Underlying().(*types.Struct)
+		if !ok {
+			continue
+		}
+		var self []string
+		for i := 0; i < st.NumFields(); i++ {
+			if pt, ok := st.Field(i).Type().(*types.Pointer); ok && types.Identical(pt.Elem(), named) {
+				self = append(self, st.Field(i).Name())
+			}
+		}
+		if len(self) == 2 {
+			node = named
+			for _, f := range self {
+				linkFields[f] = true
+			}
+		}
+	}
+	if node == nil {
+		r.Undecided("R20.9", "node type", "", "no doubly linked node type (a struct with two fields pointing to its own type) found in pkg/output")
+		return
+	}
+	// owner: struct with >= 2 fields of type *node
+	var owner *types.Named
+	endFields := []string{}
+	for _, nm := range scope.Names() {
+		tn, ok := scope.Lookup(nm).(*types.TypeName)
+		if !ok {
+			continue
+		}
+		named, ok := tn.Type().(*types.Named)
+		if !ok || named == node {
+			continue
+		}
+		st, ok := named.Underlying().(*types.Struct)
+		if !ok {
+			continue
+		}
+		var ends []string
+		for i := 0; i < st.NumFields(); i++ {
+			if pt, ok := st.Field(i).Type().(*types.Pointer); ok && types.Identical(pt.Elem(), node) {
+				ends = append(ends, st.Field(i).Name())
+			}
+		}
+		if len(ends) >= 2 {
+			owner, endFields = named, ends
+		}
+	}
+	if owner == nil {
+		r.Undecided("R20.9", "list owner", "", "no struct with two pointers to "+node.Obj().Name()+" found in pkg/output")
+		return
+	}
+	n := 0
+	for _, fobj := range c.FuncsOfPkg(p) {
+		fn := c.SSAFunc(fobj)
+		if fn == nil || fn.Blocks == nil {
+			continue
+		}
+		links, ends := 0, map[string]bool{}
+		var first token.Pos
+		for _, b := range fn.Blocks {
+			for _, in := range b.Instrs {
+				st, ok := in.(*ssa.Store)
+				if !ok {
+					continue
+				}
+				fa, ok := st.Addr.(*ssa.FieldAddr)
+				if !ok {
+					continue
+				}
+				_, fld, ok := fieldAddrName(fa)
+				if !ok {
+					continue
+				}
+				pt, ok := fa.X.Type().Underlying().(*types.Pointer)
+				if !ok {
+					continue
+				}
+				if types.Identical(pt.Elem(), node) && linkFields[fld] {
+					links++
+					if first == token.NoPos {
+						first = st.Pos()
+					}
+				}
+				if types.Identical(pt.Elem(), owner) {
+					ends[fld] = true
+				}
+			}
+		}
+		if links == 0 {
+			continue
+		}
+		n++
+		var missing []string
+		for _, e := range endFields {
+			if !ends[e] {
+				missing = append(missing, e)
+			}
+		}
+		r.Check(len(missing) == 0, "R20.9", SSAName(fn), c.Rel(fn.Pos()), fmt.Sprintf("%d link stores; end pointers %s maintained", links, strings.Join(endFields, ", ")),
+			fmt.Sprintf("%s rewrites links of %s (first at %s) but never stores %s.%s: when the node it moves is at that end of the list the end pointer goes stale", SSAName(fn), node.Obj().Name(), c.Rel(first), owner.Obj().Name(), strings.Join(missing, " or ")))
+	}
+	r.Floor("R20.9", "functions that rewrite recency-list links", n, 2)
+}
